@@ -561,7 +561,7 @@ func main() {
 		"wall_s":      wall,
 		"violations":  len(newVios),
 	}
-	if replay == "" {
+	if replay == "" && prop != "SELF" {
 		eb, _ := json.MarshalIndent(ev, "", " ")
 		_ = os.MkdirAll(filepath.Join(verifDir, "evidence"), 0o755)
 		if err := os.WriteFile(filepath.Join(verifDir, "evidence", prop+".json"), append(eb, '\n'), 0o644); err != nil {
